@@ -276,6 +276,8 @@ class SegEval:
                 return ("raise", s.exc)
             if isinstance(s, ast.Pass):
                 continue
+            if isinstance(s, ast.Continue):
+                return ("continue", None)  # the rest of this iteration is skipped
             if isinstance(s, ast.Assign) and len(s.targets) == 1:
                 self.assign(s.targets[0], s.value, s)
                 continue
@@ -426,7 +428,7 @@ class SegEval:
             for k in range(int(a), int(b)):
                 self.alg.env[var] = const(k)
                 out = self.run(s.body)
-                if out[0] != "fall":
+                if out[0] not in ("fall", "continue"):
                     self.err("exit from inside a loop", s)
             return
         # symbolic trip count: induction on one iteration
@@ -447,7 +449,7 @@ class SegEval:
                 else:
                     self.alg.env[n] = atom("?carried:" + n)
             out = self.run(s.body)
-            if out[0] != "fall":
+            if out[0] not in ("fall", "continue"):
                 self.err("exit from inside a loop", s)
             res = {n: (self.vals.get(n), self.alg.env.get(n) if n not in self.vals else None) for n in carried}
             self._restore(snap)
